@@ -34,6 +34,7 @@ EXPLANATION = (
     "consume serialize_traces completely before its single executemany, which must sit inside one `with self.conn` block, "
     "with no commit/executescript/autocommit anywhere in the module. serialize_traces is interpreted with a failing "
     "conversion at every position of a batch: the failing trace is skipped and logged, the others are yielded. "
+    "History on one store object: a batch whose write fails inside the transaction, then another add - the second must write all its rows. "
     "Not decided: concurrent writers, crash points, durability - guarantees of the sqlite engine, not of this source."
 )
 
